@@ -135,6 +135,13 @@ class MapOf(T):
         self.default_factory = default_factory
 
 
+class ExtT(T):
+    """Extension point: a type descriptor defined outside the core; `fresh(cfg, path, hint)` builds the value."""
+
+    def fresh(self, cfg, path, hint):
+        raise NotImplementedError
+
+
 class Event(T):
     """asyncio.Event with symbolic flag."""
 
